@@ -130,3 +130,24 @@ PROPS['C06'] = dict(
     level_text='generated operation histories on the dynamic string against an abstract byte string, lengths aimed at reallocation boundaries; sampling, not proof',
     level_note='trusts std::string, glibc snprintf and ASan; histories <= 300 ops, strings <= a few hundred bytes',
 )
+
+PROPS['C07'] = dict(
+    level='fault_enumeration',
+    rule='histories as in C04 (vector, buffer), C05 (queue) and C06 (string), <= 60 ops each, generated from choice tapes. For every history the executor first runs it fault-free under a counting '
+         'allocator shim (N = number of allocation requests, capped at 96) and then re-runs it from scratch for EVERY k in 1..N in two fault shapes: only request k fails / every request >= k fails. '
+         'At the op where the fault strikes the return value must signal failure, the container must equal the model before the op (incl. the NUL terminator) and pass all C04/C05/C06 invariants; '
+         'in single-fault mode the same op is retried at once and must succeed; the ledger of live blocks must be empty after destruction (no leak, no double/foreign free). '
+         'non-trivial = history in which an injected fault hit a library request in an op that was not the first; evaluations = histories, oracle_evaluations counts ops plus faulty executions; '
+         'distinct = hash of (decoded history, N)',
+    assumptions=COMMON_ASSUME + ['a_que_setz: its documented effect begins with an unconditional drop, so after a failed setz the queue may be validly empty with its old element size (declared reading, DESIGN §4 C07)',
+                                 'the allocator shim always relocates on growth (exact-size blocks), so stale pointers are ASan errors',
+                                 'fault positions are enumerated exhaustively per history (up to 96 requests); histories themselves are sampled'],
+    units=lambda tier, seed: [Unit('vecbuf', 'exec/C04.cc', SEQ_SRC, exec_defs=['-DVP_FAULT'], tape_len=120),
+                              Unit('que', 'exec/C05_que.cc', ['a.c', 'que.c'], exec_defs=['-DVP_FAULT'], tape_len=120),
+                              Unit('str', 'exec/C06.cc', ['a.c', 'str.c', 'utf.c'], exec_defs=['-DVP_FAULT'], tape_len=120)],
+    plan={'quick': dict(rc_procs=3, rc_cases=1500, fuzz_procs=2, fuzz_secs=25),
+          'thorough': dict(rc_procs=4, rc_cases=20000, fuzz_procs=3, fuzz_secs=240)},
+    technique='fault injection by exhaustive enumeration of allocation-failure positions over generated histories (rapidcheck choice tapes + libFuzzer), model-based oracle and live-block ledger',
+    level_text='every allocation request of every generated history is made to fail (single fault and persistent fault); the container is compared with the model at the failing op and the block ledger is balanced at destruction',
+    level_note='histories are sampled; fault positions within a history are exhaustive up to 96 requests; trusts the shim allocator and the models of C04/C05/C06',
+)
